@@ -326,6 +326,7 @@ def run(ctx) -> None:
     r4.check(bool(prefix) and f"'{prefix[0]}*.npz'" in tl and f"[{len(prefix[0])}:]" in tl and f"startswith('{prefix[0]}')" in tl,
              f"load_npz recognises R-matrix files by the writer's prefix {prefix}", load, load.node,
              f"load_npz's glob/prefix-strip does not match the writer's prefix {prefix}", stmt="prefix")
+    check_pointgroup_serialisation(ctx)
     lcfg, ldu, lpm = fctx(load)
     ot = OrderTaint(load.node, ldu)
     for s in ot.sources:
@@ -334,6 +335,60 @@ def run(ctx) -> None:
     r4.check(not sk, "directory listings in load_npz are used order-insensitively", load,
              enclosing(lpm, sk[0][0], ast.stmt) if sk else load.node,
              f"load_npz takes `{norm1(sk[0][0], 60)}` positionally from a directory listing" if sk else "")
+
+
+def check_pointgroup_serialisation(ctx) -> None:
+    """R18.5 — PointGroup.as_dict ↔ PointGroup(dictionary=…) and PointSymmetry.as_dict ↔ PointSymmetry(**d)."""
+    idx = ctx.index
+    PS = "wannierberri/symmetry/point_symmetry.py"
+    r5 = ctx.rule("R18.5", "point-group serialisation: every key is written from the attribute the reader restores it to", min_instances=2)
+    pg = idx.cls(PS, "PointGroup")
+    ps = idx.cls(PS, "PointSymmetry")
+    wd = pg.methods.get("as_dict")
+    ini = pg.methods.get("__init__")
+    if wd is None or ini is None:
+        raise AnalysisError("PointGroup.as_dict/__init__ vanished")
+    r5.instance(wd.short)
+    dcalls = [c for c in ast.walk(wd.node) if isinstance(c, ast.Call) and call_name(c) == "dict"]
+    if len(dcalls) != 1:
+        raise AnalysisError("PointGroup.as_dict: dict(...) literal not found")
+    written = {k.arg: k.value for k in dcalls[0].keywords}
+    # reader: dictionary['key'] → constructor keyword
+    reads = {}
+    for c in ast.walk(ini.node):
+        if isinstance(c, ast.Call) and norm(c.func) == "self.__init__":
+            for k in c.keywords:
+                if isinstance(k.value, ast.Subscript) and norm(k.value.value) == "dictionary" and isinstance(k.value.slice, ast.Constant):
+                    reads[k.value.slice.value] = k.arg
+    ti = norm(ini.node)
+    r5.check("nsym = dictionary['nsym']" in ti and "nsym" in written and norm(written["nsym"]) in ("nsym", "len(self.symmetries)"),
+             "number of operations written and read under 'nsym'", wd, dcalls[0], "`nsym` is not written/read consistently", stmt="nsym")
+    for key, param in reads.items():
+        v = written.get(key)
+        r5.check(v is not None and norm(v) == f"self.{param}", f"key {key!r} ← self.{param} → constructor parameter {param}", wd,
+                 dcalls[0] if v is None else v,
+                 f"PointGroup.as_dict stores `{norm1(v) if v is not None else None}` under the key {key!r}, which the loader passes as "
+                 f"`{param}=`: a reloaded point group gets a different {param} (operations are then applied in the wrong basis)",
+                 stmt=f"{key}={norm1(v) if v is not None else None}")
+    if not reads:
+        raise AnalysisError("PointGroup.__init__: dictionary branch does not pass dictionary[...] to the constructor")
+    r5.check("self._symm_dict_prefix(i) + k" in norm(wd.node) and "l = self._symm_dict_prefix(i)" in ti and "k[len(l):]" in ti,
+             "per-operation keys use one prefix helper on both sides", wd, wd.node, "per-operation key prefix differs between writer and reader",
+             stmt="symm prefix")
+    sw = ps.methods.get("as_dict")
+    si = ps.methods.get("__init__")
+    r5.instance(sw.short)
+    sd = [c for c in ast.walk(sw.node) if isinstance(c, ast.Call) and call_name(c) == "dict"]
+    keys = {k.arg: norm(k.value) for k in sd[0].keywords} if sd else {}
+    r5.check(set(keys) <= set(si.params[1:]) and set(keys) == {"R", "TR"}, f"operation keys {sorted(keys)} are constructor parameters", sw,
+             sd[0] if sd else sw.node, f"PointSymmetry.as_dict writes {sorted(keys)} but PointSymmetry(**d) accepts {si.params[1:]}",
+             stmt=f"keys {sorted(keys)}")
+    tsi = norm(si.node)
+    r5.check(keys.get("R") == "self.R * (-1 if self.Inv else 1)" and "self.R = R * (-1 if self.Inv else 1)" in tsi
+             and "self.Inv = np.linalg.det(R) < 0" in tsi and keys.get("TR") == "self.TR",
+             "the improper sign folded into R on write is split off again on read", sw, sd[0] if sd else sw.node,
+             f"PointSymmetry.as_dict writes R as `{keys.get('R')}` / TR as `{keys.get('TR')}`: the inversion part of an operation is not "
+             f"restored by PointSymmetry.__init__", stmt=f"R={keys.get('R')}")
 
 
 def wpm_stmt(pm, n):
@@ -374,6 +429,10 @@ SELFTEST = [
       "fire", "R18.4"),
     V("iRvec dropped from the essential list", SR, "['num_wann', 'real_lattice', 'iRvec', 'periodic',", "['num_wann', 'real_lattice', 'periodic',",
       "fire", "R18.4"),
+    V("point group saved with the reciprocal lattice (seeded C18-m2)", "wannierberri/symmetry/point_symmetry.py",
+      "ret = dict(real_lattice=self.real_lattice,", "ret = dict(real_lattice=self.recip_lattice,", "fire", "R18.5"),
+    V("inversion sign not folded into the saved rotation", "wannierberri/symmetry/point_symmetry.py",
+      "return dict(R=self.R * (-1 if self.Inv else 1), TR=self.TR)", "return dict(R=self.R, TR=self.TR)", "fire", "R18.5"),
     V("neutral: reader split via len()", HR, "nup = (data.shape[0] + 1) // 2", "nup = (len(data) + 1) // 2", "silent"),
     V("neutral: reader split spelled n - n//2", HR, "nup = (data.shape[0] + 1) // 2", "nup = data.shape[0] - data.shape[0] // 2", "silent"),
 ]
